@@ -76,6 +76,26 @@ func (c *AnswerCache) ProvedKey(k string) bool {
 	return false
 }
 
+// HasKey reports membership without counting a hit.
+func (c *AnswerCache) HasKey(k string) bool {
+	if c == nil {
+		return false
+	}
+	c.mu.Lock()
+	defer c.mu.Unlock()
+	return c.have[k]
+}
+
+// CountHit counts one query answered from the cache.
+func (c *AnswerCache) CountHit() {
+	if c == nil {
+		return
+	}
+	c.mu.Lock()
+	c.Hits++
+	c.mu.Unlock()
+}
+
 func (c *AnswerCache) AddKey(k string) {
 	if c == nil {
 		return
